@@ -26,8 +26,8 @@ TOL = 1e-12
 
 
 def bounds(tier):
-    return dict(quick=dict(history_depth=3, grid_divisions='1..4 x 1..4', conversion='degrees<=3 curves, <=2 surfaces/volumes'),
-                thorough=dict(history_depth=4, grid_divisions='1..5 x 1..5', conversion='degrees<=3'))[tier]
+    return dict(quick=dict(history_depth=4, grid_divisions='1..4 x 1..4', conversion='degrees<=3 curves, <=2 surfaces/volumes'),
+                thorough=dict(history_depth=6, grid_divisions='1..5 x 1..5', conversion='degrees<=3'))[tier]
 
 
 # ----------------------------------------------------------------------------------------
@@ -88,6 +88,14 @@ class ViewSystem(object):
                 obj.set_ctrlpts(v)
             else:
                 obj.set_ctrlpts(v, *self.sizes)
+        # the caller owns the lists it passed in: overwrite them after the call (a shape that kept a reference to its
+        # argument instead of its own copy now shows it)
+        for i in range(len(v)):
+            if isinstance(v[i], list):
+                for j in range(len(v[i])):
+                    v[i][j] = 11.5 + j
+            else:
+                v[i] = 11.5 + i
         return None
 
     def judge(self, ctx, hist, op, obj, obs, pre):
@@ -142,7 +150,7 @@ class ViewSystem(object):
 
 def gen_cases(tier, seed):
     q = tier == 'quick'
-    depth = 3 if q else 4
+    depth = 4 if q else 6
     cases = []
     vs = ViewSystem('curve')
     for kind in ('curve', 'surface', 'volume'):
